@@ -24,6 +24,7 @@ src/runtime/select.go select.diff select.go
 src/runtime/time.go time.diff time.go
 src/runtime/rand.go rand.diff rand.go
 src/runtime/runtime2.go runtime2.diff runtime2.go
+src/runtime/sema.go sema.diff sema.go
 src/context/context.go context.diff context.go
 src/math/rand/rand.go mathrand.diff mathrand.go
 src/math/rand/v2/rand.go mathrandv2.diff mathrandv2.go
